@@ -12,7 +12,9 @@ import ast
 import re
 
 from ..astutil import calls_in, call_name, where
+from ..dataflow import private_closure
 from ..fold import Folder, format_tables, Unfoldable
+from ..symtext import effect_calls
 from ..model import AnalysisError, unparse, walk_no_nested
 
 DECIDED = [
@@ -89,7 +91,10 @@ def run(prog, rep):
                        "predicate are those save_odml_values uses")
     pq = prog.cls("QueryCreator").lookup_method("_prepare_query")
     rep.saw_function(pq)
-    strings = [n.value for n in ast.walk(pq.node) if isinstance(n, ast.Constant) and isinstance(n.value, str)]
+    strings = [n.value for h in private_closure(pq) for n in ast.walk(h.node) if isinstance(n, ast.Constant) and isinstance(n.value, str)
+               and not (isinstance(getattr(n, "_doc", None), str))]
+    docs = set(ast.get_docstring(h.node) for h in private_closure(pq))
+    strings = [s0 for s0 in strings if s0.strip() not in set(d.strip() for d in docs if d)]
     terms = set()
     for s in strings:
         terms |= set(re.findall(r"\b(odml|rdf):(\w+)", s))
@@ -111,10 +116,13 @@ def run(prog, rep):
         rep.check((ns, t) in exported, "TAB-10", "query term %s:%s" % (ns, t), "written by the exporter",
                   "the query uses %s:%s, which the exporter never writes: every query containing it returns nothing" % (ns, t), pq.where,
                   witness="a {'Prop': [('value', ['v'])]} query on an export that contains v")
+    maps = effect_calls(prog, pq, lambda c: isinstance(c.func, ast.Attribute) and c.func.attr == "rdf_map")
     for fname, var in (("Document", "Doc"), ("Section", "Sec"), ("Property", "Prop")):
-        calls = [c for c in calls_in(pq.node) if call_name(c) == "%s.rdf_map" % fname]
-        rep.check(len(calls) >= 1, "TAB-10", "predicates of %s come from %s.rdf_map" % (var, fname), "ok",
-                  "_prepare_query does not map %s attributes through %s.rdf_map" % (var, fname), pq.where)
+        mine = [e for e in maps if any(p and ("'%s' in " % var) in t for t, p in e.guards())]
+        used = sorted(set(unparse(e.call.func.value) for e in mine))
+        rep.check(used == [fname], "TAB-10", "predicates of %s come from %s.rdf_map" % (var, fname), str(used),
+                  "_prepare_query maps the %s attributes through %s instead of %s.rdf_map" % (var, used, fname), pq.where,
+                  witness="a query on a %s attribute builds the predicate of another kind (or none) and matches nothing" % fname)
     # containment relations between the kinds
     joined = " ".join(strings)
     rep.check("?d odml:hasSection ?s" in joined and "?s odml:hasProperty ?p" in joined, "TAB-10", "kinds related by direct containment", "ok",
